@@ -83,6 +83,9 @@ void TwoPointsNumericalDerivative::updateDerivatives(const ParameterList& parame
         }
       }
 
+      if (hf2 == 0)
+        function_->setParameters(parameters); // no probe was possible: go back to the requested point before probing the next variable
+
       der1_[i] = (f2_ - f1_) / h;
     }
     // Reset last parameter and compute analytical derivatives if any:
